@@ -21,12 +21,12 @@ LayerA ==
       [] OTHER -> "UnknownKind"
 
 Load(i) == /\ files' = {c \in Files : Traces[i][c]}
-           /\ dash' = Traces[i].dash /\ cli' = Traces[i].cli /\ cliDefault' = Traces[i].cliDefault /\ lang' = Traces[i].lang
+           /\ dash' = Traces[i].dash /\ cli' = Traces[i].cli /\ cliDefault' = Traces[i].cliDefault /\ lang' = Traces[i].lang /\ langOther' = Traces[i].langOther
            /\ spelling' = Traces[i].spelling /\ companion' = Traces[i].companion /\ done' = TRUE
 
 TraceInit == /\ tid = 1 /\ done = TRUE
              /\ files = {c \in Files : Traces[1][c]} /\ dash = Traces[1].dash /\ cli = Traces[1].cli /\ cliDefault = Traces[1].cliDefault
-             /\ lang = Traces[1].lang /\ spelling = Traces[1].spelling /\ companion = Traces[1].companion
+             /\ lang = Traces[1].lang /\ langOther = Traces[1].langOther /\ spelling = Traces[1].spelling /\ companion = Traces[1].companion
 TraceNext == /\ tid <= Len(Traces)
              /\ PrintT(<<"VERDICT", tid, LayerA, "ok", 0>>)
              /\ tid' = tid + 1
